@@ -365,6 +365,14 @@ func (r *Reader) readNodeContent(ctx context.Context, node Node) ([]byte, error)
 	return node.Read()
 }
 
+// isUnreachable reports whether a download failed without any HTTP answer
+// (connection refused or reset, DNS failure, ...), as opposed to the server
+// answering with an error status.
+func isUnreachable(err error) bool {
+	var fetchErr errors.TaskfileFetchFailedError
+	return errors.As(err, &fetchErr) && fetchErr.HTTPStatusCode == 0
+}
+
 func (r *Reader) readRemoteNodeContent(ctx context.Context, node RemoteNode) ([]byte, error) {
 	cache := NewCacheNode(node, r.tempDir)
 	now := time.Now().UTC()
@@ -414,12 +422,13 @@ func (r *Reader) readRemoteNodeContent(ctx context.Context, node RemoteNode) ([]
 	r.debugf("downloading remote file: %s\n", node.Location())
 	downloadedBytes, err := node.ReadContext(ctx)
 	if err != nil {
-		// If the context timed out or was cancelled, but we found a cached version, use that
-		if ctx.Err() != nil && cacheFound {
+		// If the context timed out or was cancelled, or the remote could not be
+		// reached at all, but we found a cached version, use that
+		if cacheFound && (ctx.Err() != nil || isUnreachable(err)) {
 			if cacheValid {
-				r.debugf("failed to fetch remote file: %s: using cache\n", ctx.Err().Error())
+				r.debugf("failed to fetch remote file: %s: using cache\n", err.Error())
 			} else {
-				r.debugf("failed to fetch remote file: %s: using expired cache\n", ctx.Err().Error())
+				r.debugf("failed to fetch remote file: %s: using expired cache\n", err.Error())
 			}
 			return cachedBytes, nil
 		}
